@@ -81,6 +81,7 @@ class Decomp(Suite):
         res["tips"] = [int(n.id) for n in t.get_tips()]
         res["furcations"] = [int(n.id) for n in t.get_furcations()]
         res["node_branch"] = {str(i): [int(x) for x in t.node(i).branch().origin_id()] for i in range(min(case["tree"]["n"], 12))}
+        res["node_flags"] = {str(i): [bool(t.node(i).is_furcation()), bool(t.node(i).is_tip())] for i in range(min(case["tree"]["n"], 12))}
         try:
             bt = BranchTree.from_tree(t)
             res["bt"] = {"pid": bt.pid().tolist(), "xyz": bt.xyz().astype(float).tolist(),
@@ -169,6 +170,17 @@ class Decomp(Suite):
             i = int(i)
             if i not in b:
                 out.append(("node-branch", f"node {i}.branch() = {b} does not contain the node")); break
+            if nk(i) >= 2:
+                want = [i]                       # a furcation's own branch is the one-node branch (documented)
+            else:
+                own = [br for br in res["branches"] if i in br[1:]] or [br for br in res["branches"] if br[0] == i] or [[i]]
+                want = own[0]
+            if b != want:
+                out.append(("node-branch", f"pids={pids}: node {i}.branch() = {b}, the branch of the decomposition through it is {want}")); break
+        for i, (isf, ist) in res.get("node_flags", {}).items():
+            i = int(i)
+            if isf != (nk(i) >= 2) or ist != (nk(i) == 0):
+                out.append(("node-flags", f"pids={pids}: node {i} has {nk(i)} children but is_furcation()={isf}, is_tip()={ist}")); break
         return out[:4]
 
     def nontrivial(self, case, res):
